@@ -120,7 +120,7 @@ def check_equiv(m, grids, D, cfg, budget_s=30.0, first_only=False, enum_check=Fa
     # original variables: bounds/type must not be weakened (the grid only covers the NL box)
     for i in range(n):
         v = m.vars[perm[i]]
-        if D.lb[i] < F(v['lb']) or D.ub[i] > F(v['ub']):
+        if (v['lb'] is not None and D.lb[i] < F(v['lb'])) or (v['ub'] is not None and D.ub[i] > F(v['ub'])):   # None: unbounded side
             res['failures'].append({'dir': 'orig-bounds-widened', 'var': perm[i],
                                     'what': 'delivered bounds [%s,%s] wider than NL bounds [%s,%s]' % (D.lb[i], D.ub[i], v['lb'], v['ub'])})
         if v['int'] and not D.int[i]:
@@ -1238,8 +1238,15 @@ def run(ck):
         import c01_gadgets
     except ImportError:
         c01_gadgets = None
+    cov_mode = bool(os.environ.get('VERIF_COVERAGE'))
+    if cov_mode:
+        import c01_cov
+        c01_cov.build_cov(ck)
+        c01_cov.reset_counters()
+        os.environ.setdefault('C01_BUDGET_S', '1500')
+        os.environ.setdefault('C01_MAX_CASES', '2304')      # what a quick run gets through (seed 1: ~2300 cases)
     if c01_gadgets is not None:
-        res = c01_gadgets.run_gadgets(ck)
+        res = c01_gadgets.run_gadgets(ck, proof=not cov_mode)
         if hasattr(c01_gadgets, 'report'):
             c01_gadgets.report(ck, res)
     else:
@@ -1248,12 +1255,38 @@ def run(ck):
         ck.cov.setdefault('discharged', 0)
         ck.level = 'exploration'
     run_e2e(ck)
+    if cov_mode:
+        prev = None
+        pj = os.path.join(VERIF, 'design_notes', 'coverage', 'C01.json')
+        if os.path.exists(pj):
+            old = json.load(open(pj))
+            prev = old.get('before') or {k: old[k] for k in ('anchor_line_cov', 'anchor_branch_cov', 'per_file') if k in old}
+            if os.environ.get('C01_COV_BASELINE'):
+                prev = None
+        lines, branches, funcs = c01_cov.collect(ck)
+        e2e = ck.cov.get('e2e') or {}
+        summ = c01_cov.report(ck, lines, branches, funcs,
+                              {'gadget_cases': (res.get('stats') or {}).get('runs') if c01_gadgets is not None else None,
+                               'e2e_cases': e2e.get('cases'), 'seed': ck.seed, 'profiles': e2e.get('profiles')}, before=prev)
+        ck.log('COVERAGE of the anchored files: lines %.1f %%, branches %.1f %% -> design_notes/coverage/C01.generated.md'
+               % (summ['anchor_line_cov'], summ['anchor_branch_cov']))
+    else:
+        pj = os.path.join(VERIF, 'design_notes', 'coverage', 'C01.json')
+        if os.path.exists(pj):
+            try:
+                cj = json.load(open(pj))
+                ck.cov['anchor_line_cov'] = cj.get('anchor_line_cov')
+                ck.cov['anchor_branch_cov'] = cj.get('anchor_branch_cov')
+                ck.cov['anchor_cov_note'] = 'measured by VERIF_COVERAGE=1 ./check C01 on %s (repo %s), see design_notes/coverage/C01.md' % (cj.get('measured'), cj.get('repo_head'))
+            except Exception:
+                pass
 
 
 def run_e2e(ck):
     from multiprocessing import Pool
     t_start = time.time()
-    exe = recsolver.build(ck, flags=('-O1',))
+    import c01_gadgets as _cg
+    exe = _cg.rec_exe(ck)
     ck.log('recsolver built/cached: %s (%.1fs)' % (os.path.basename(exe), time.time() - t_start))
     wbase = os.path.join(BUILD, 'c01work')
     shutil.rmtree(wbase, ignore_errors=True)
